@@ -67,7 +67,7 @@ class C03(common.Prop):
         return case
 
     def gen_window(self, rng, F, fps, hdr_end, per_frame):
-        kind = rng.choice(["frames"] * 6 + ["time"] * 3 + ["conflict", "beyond", "mixed"])
+        kind = rng.choice(["frames"] * 6 + ["time"] * 3 + ["conflict", "beyond", "mixed", "ftime"])
         a = {}
         # frames located relative to the prefetch boundary
         pf_frame = max(0, (PREFETCH_DEFAULT - hdr_end - 10) // max(1, per_frame))
@@ -97,6 +97,21 @@ class C03(common.Prop):
         elif kind == "conflict":
             a = rng.choice([{"start_frame": 0, "start_time": 0}, {"start_frame": 1, "start_time": 10}, {"end_frame": 2, "end_time": 100},
                             {"start_frame": 1, "end_frame": 2, "end_time": 50}])
+        elif kind == "ftime":
+            # fractional millisecond bounds placed a hair below / above the instant of a frame, computed with the frame rate the
+            # FILE holds (the float32 value): floor / ceil of time x fps decide on the last bit of that product, so the mapping
+            # must use exactly the stored rate (judged by the oracle only: the model's time bounds are whole milliseconds)
+            ks = [c for c in cands if 1 <= c < F] or [1]
+            k = rng.choice(ks)
+            t = k * 1000.0 / fps
+            below = t
+            while below / 1000 * fps >= k:
+                below = math.nextafter(below, -math.inf)
+            above = t
+            while above / 1000 * fps <= k:
+                above = math.nextafter(above, math.inf)
+            a = rng.choice([{"start_time": below}, {"start_time": above}, {"end_time": above}, {"end_time": below},
+                            {"start_time": below, "end_time": above}])
         elif kind == "beyond":
             a = rng.choice([{"start_frame": F}, {"start_frame": F + 5, "end_frame": F + 9}, {"start_time": int(F * 1000.0 / fps) + 1000}])
         return kind, {k: v for k, v in a.items() if v is not None}
@@ -169,7 +184,7 @@ class C03(common.Prop):
 
     # ------------------------------------------------------------------ model
     def run_model(self, case, runner):
-        if case.get("v01"):
+        if case.get("v01") or case.get("wkind") == "ftime":
             return None
         files = [case["file"], self.other]
         ops = []
